@@ -22,6 +22,7 @@ var incrWake = map[string]bool{
 }
 
 var incrOptional = []string{
+	"auto.",
 	"i.run.rlock", "i.evict.entry", "i.acquire", "i.acquired", "i.release", "i.released", "i.cancelled",
 	"i.resolve.deps", "i.join.released", "i.join.woke", "i.run.entry", "i.run.cas", "i.done.close", "i.done.closed",
 	"i.wait.cycle", "i.wait.select", "i.wait.woke", "h.op",
@@ -33,6 +34,9 @@ type GraphSpec struct {
 	N      int     `json:"n"`
 	Deps   [][]int `json:"deps"`
 	Groups [][]int `json:"groups,omitempty"`
+	// Dynamic[i]: query i drops its last dependency while its input version is
+	// odd, so the dependency graph itself changes across evictions.
+	Dynamic []bool `json:"dynamic,omitempty"`
 }
 
 type gqKey struct{ ID int }
@@ -77,6 +81,7 @@ type gworld struct {
 	activeRuns int
 	probeLocks bool
 	runActive  map[int]bool
+	usedDeps   [][]int // dependencies each query resolved in its last execution
 
 	concurrentPanicPossible bool
 }
@@ -90,6 +95,7 @@ func newWorld(prop string, g GraphSpec, par int) *gworld {
 	w.executing = make([]bool, g.N)
 	w.memo = make([]bool, g.N)
 	w.executedBy = make([]int, g.N)
+	w.usedDeps = make([][]int, g.N)
 	for i := range w.executedBy {
 		w.executedBy[i] = -1
 	}
@@ -119,12 +125,21 @@ func hashVals(id int, input int64, deps []int64) int64 {
 }
 
 // modelValue is the pure recomputation on the current inputs (DAG only).
+// effDeps is the dependency list query id uses with its current input.
+func (w *gworld) effDeps(id int) []int {
+	deps := w.g.Deps[id]
+	if id < len(w.g.Dynamic) && w.g.Dynamic[id] && len(deps) > 0 && w.input[id]%2 == 1 {
+		return deps[:len(deps)-1]
+	}
+	return deps
+}
+
 func (w *gworld) modelValue(id int, cache map[int]int64) int64 {
 	if v, ok := cache[id]; ok {
 		return v
 	}
 	var dv []int64
-	for _, d := range w.g.Deps[id] {
+	for _, d := range w.effDeps(id) {
 		dv = append(dv, w.modelValue(d, cache))
 	}
 	v := hashVals(id, w.input[id], dv)
@@ -150,7 +165,8 @@ func (q gquery) Execute(t *incremental.Task) (int64, error) {
 	w.execCount[q.id]++
 	defer func() { w.executing[q.id] = false }()
 
-	deps := w.g.Deps[q.id]
+	deps := w.effDeps(q.id)
+	w.usedDeps[q.id] = deps
 	groups := []int{len(deps)}
 	if q.id < len(w.g.Groups) && len(w.g.Groups[q.id]) > 0 {
 		groups = w.g.Groups[q.id]
@@ -241,7 +257,10 @@ func (w *gworld) upClosure(keys []int) map[int]bool {
 		}
 		out[k] = true
 		for c := 0; c < w.g.N; c++ {
-			for _, d := range w.g.Deps[c] {
+			if !w.memo[c] {
+				continue
+			}
+			for _, d := range w.usedDeps[c] {
 				if d == k {
 					visit(c)
 				}
@@ -262,7 +281,7 @@ func (w *gworld) downClosure(keys []int) map[int]bool {
 			return
 		}
 		out[k] = true
-		for _, d := range w.g.Deps[k] {
+		for _, d := range w.effDeps(k) {
 			visit(d)
 		}
 	}
@@ -343,6 +362,9 @@ func genGraph(t *rapid.T, maxN int, dag bool) GraphSpec {
 			if rapid.IntRange(0, 9).Draw(t, "edge") < density {
 				g.Deps[i] = append(g.Deps[i], j)
 			}
+		}
+		if dag {
+			g.Dynamic = append(g.Dynamic, rapid.IntRange(0, 3).Draw(t, "dynamic") == 0)
 		}
 		// split the dependency list into consecutive Resolve calls
 		left := len(g.Deps[i])
